@@ -27,6 +27,26 @@ pub fn step(ctx: &Ctx, w: &World, ev: &mut Ev) {
     if reg.len() > 3 {
         ev.violation("registry", "more_than_three", json!({"registry": reg}));
     }
+    // the registry's content is what the accepted AddVamm / RemoveVamm calls made it (model updated after this step)
+    {
+        let mut expect = ctx.model.registry_ref.clone();
+        if ctx.out.ok {
+            match &ctx.step.op {
+                Op::AddVamm { vamm } => {
+                    expect.insert(w.resolve(vamm));
+                }
+                Op::RemoveVamm { vamm } => {
+                    expect.remove(&w.resolve(vamm));
+                }
+                _ => {}
+            }
+        }
+        let got: std::collections::BTreeSet<String> = reg.iter().cloned().collect();
+        if got != expect && !ev.poisoned.contains("registry") {
+            ev.poisoned.insert("registry".into());
+            ev.violation("registry", &format!("content_differs_from_history,{}", kind), json!({"registry": reg, "expected": expect}));
+        }
+    }
     for (i, va) in w.addrs.vamms.iter().enumerate() {
         if let Ok(x) = w.q(&w.addrs.insurance_fund, json!({"is_vamm": {"vamm": va}})) {
             let m = x["is_vamm"].as_bool().unwrap_or(false);
